@@ -144,6 +144,8 @@ def op_text(op):
         return "setcmd %s %s" % (hx(op[1]), hx(op[2]))
     if k == "setskip":
         return "setskip %s %s" % (hx(op[1]), hx(op[2]))
+    if k == "staletmp":
+        return "staletmp %s" % hx(op[1])
     if k in ("write", "writeold"):
         return "write %s %s" % (hx(op[1]), op[2])       # writeold: same for the model (timestamps are not content)
     if k in ("rm", "mkdir", "fifo", "uncopy"):
@@ -556,8 +558,8 @@ class Project:
                 full = os.path.join(d, name)
                 if d == rootb and name == b".dud":
                     continue
-                if full in skip:
-                    continue
+                if full in skip or (full.endswith(b".tmp") and full[:-4] in skip):
+                    continue            # stage files (and what a killed dud left next to them, op `staletmp`): metadata, listed elsewhere
                 rel = os.path.relpath(full, rootb)
                 st = os.lstat(full)
                 if stat.S_ISLNK(st.st_mode) and full in self.mounts:
@@ -1000,11 +1002,22 @@ def apply_op(proj, op, mstep, b3):
             proj.move()
         elif k == "setcmd":
             path = proj.abspath(op[1])
-            doc = yaml.safe_load(open(path, "rb").read()) or {}
+            try:
+                doc = yaml.safe_load(open(path, "rb").read()) or {}
+                if not isinstance(doc, dict):
+                    raise ValueError("not a mapping")
+            except Exception:
+                # the stage file dud wrote cannot be loaded: the edit replaces it by the definition alone (judged by the oracles)
+                r["lines"].append("harness: stage file %s is unreadable" % hx(op[1]))
+                doc = {}
             doc["command"] = op[2].decode()
             with open(path, "w") as f:
                 yaml.safe_dump(doc, f, default_flow_style=False)
             proj.cmds[op[1]] = op[2]
+        elif k == "staletmp":
+            # what a dud killed while writing this stage file left behind: `<stage>.tmp`, here LONGER than any stage file
+            with open(proj.abspath(op[1]) + b".tmp", "wb") as f:
+                f.write(b"# interrupted write\n" + open(proj.abspath(op[1]), "rb").read() + b"#" * int(op[2]) + b"\nzz-leftover: [unterminated\n")
         elif k == "setskip":
             # the user edits the stage file: an output becomes `skip-cache: true` (everything else, the recorded checksum too, stays)
             path = proj.abspath(op[1])
